@@ -4,8 +4,11 @@ checks the property on the implementation's own outputs: replay of the changelog
 write/delete, descending = reverse ascending, type filter = plain filter, horizon withholds exactly the newer changes.
 -/
 import OpenFGAVerif.Driver.StoreW
+import OpenFGAVerif.Model.StoreChanges
+import OpenFGAVerif.Gen.StoreChanges
 
 open OpenFGAVerif OpenFGAVerif.Proto OpenFGAVerif.Model.StoreTypes OpenFGAVerif.Model.StoreWrite OpenFGAVerif.Driver.StoreW
+open OpenFGAVerif.Model.StoreChanges
 
 /-- model-independent checks on two consecutive dumps of the store -/
 def changelogCheck (backend : String) (prev cur : Obs) (distinctKeys : Bool) : Option String :=
@@ -72,13 +75,34 @@ def modelRead (acc : CAcc) (typ : String) (horizon : Nat) (desc : Bool) : String
   | .mem s => fmtRead (memReadChanges s typ bigNow horizon desc)
   | .sql db => fmtRead (sqlReadChanges db.committed typ bigNow horizon desc)
 
+/-- the model's page function of the session's backend -/
+def modelPage (acc : CAcc) (typ : String) (ps : Nat) : Nat → Option Nat → List Change × Option Nat :=
+  match acc.m with
+  | .mem s => memChangesPage s.changes typ bigNow ps
+  | .sql db => sqlChangesPage db.committed.changes typ bigNow ps
+
+/-- a walk page by page: the changes received and the horizon trace ("q" = the configured horizon was handed to the
+    datastore, "0" = none), as the model predicts them for a query that sets the horizon on every page (`everyPage`) or
+    only on the first -/
+def modelWalk (acc : CAcc) (typ : String) (ps : Nat) (everyPage : Bool) (q : Nat) : String × String :=
+  match followQuery (modelPage acc typ ps) everyPage q (acc.m.changes.length + 2) none with
+  | none => ("?", "?")
+  | some pages =>
+    let calls := pages.length + 1
+    let trace := (List.range calls).map (fun i => if i == 0 || everyPage then "q" else "0")
+    (fmtList (pages.flatten.map fmtChange), ".".intercalate trace)
+
 def finalCheck (backend : String) (acc : CAcc) (g : String) : String :=
   match g.splitOn ";" with
-  | ["R", asc, desc, docAsc, folderAsc, doAsc, docDesc, hz1h, hzCut, hzCutDocDesc, pg2, pg3, pg1doc] =>
+  | ["R", asc, desc, docAsc, folderAsc, doAsc, docDesc, hz1h, hzCut, hzCutDocDesc, pg2, pg3, pg1doc, pgH, qp, qtrace, qpdoc, qdoctrace] =>
     let ascL := parseList asc
     let lastL := acc.prev.changes.map obsChangeStr
     let typed (t : String) := ascL.filter (fun s => typeOfChangeStr s == t)
     let cutAsc := match acc.cutLen with | some n => ascL.take n | none => []
+    -- what a client reading through the query with the horizon may receive
+    let visible := if acc.cutLen.isSome then cutAsc else ascL
+    let visibleDoc := visible.filter (fun s => typeOfChangeStr s == "doc")
+    let newer (got : List String) := got.any (fun s => !visible.contains s)
     let viol : Option String :=
       if ascL != lastL then some "ReadChanges (ascending, no filter) differs from the changelog read after the last write"
       else if parseList desc != ascL.reverse then some "descending order is not the exact reverse of ascending order"
@@ -92,19 +116,48 @@ def finalCheck (backend : String) (acc : CAcc) (g : String) : String :=
         some "horizon + type filter + descending differs from filtering the ascending log"
       else if parseList pg2 != ascL || parseList pg3 != ascL.reverse || parseList pg1doc != typed "doc" then
         some "walking the changelog page by page does not give the same changes as reading it at once"
+      else if acc.cutLen.isSome && parseList pgH != cutAsc then
+        some s!"walking the datastore's changelog page by page with a horizon does not give exactly the changes older than the horizon (expected the first {cutAsc.length})"
+      else if newer (parseList qp) || newer (parseList qpdoc) then
+        some s!"ReadChangesQuery with a horizon: a continuation page handed out changes newer than the horizon (only the first {visible.length} changes are older)"
+      else if parseList qp != visible || parseList qpdoc != visibleDoc then
+        some s!"ReadChangesQuery with a horizon, followed page by page, does not return exactly the changes older than the horizon (expected the first {visible.length})"
+      else if (qtrace.splitOn ".").any (· != "q") || (qdoctrace.splitOn ".").any (· != "q") then
+        some "ReadChangesQuery did not hand its configured horizon offset to the datastore on every call of a paged read"
       else none
     let hz := match acc.cutNow with | some c => bigNow - c | none => 0
+    let every := Gen.StoreChanges.rcHorizonEveryPage
+    let w1 := modelWalk acc "" 1 every hz
+    let w2 := modelWalk acc "doc" 2 every hz
     let expected := ";".intercalate ["R", modelRead acc "" 0 false, modelRead acc "" 0 true, modelRead acc "doc" 0 false,
       modelRead acc "folder" 0 false, modelRead acc "do" 0 false, modelRead acc "doc" 0 true, modelRead acc "" (bigNow + 1) false,
       (if acc.cutNow.isSome then modelRead acc "" hz false else "-"),
       (if acc.cutNow.isSome then modelRead acc "doc" hz true else "-"),
-      modelRead acc "" 0 false, modelRead acc "" 0 true, modelRead acc "doc" 0 false]
+      modelRead acc "" 0 false, modelRead acc "" 0 true, modelRead acc "doc" 0 false,
+      (if acc.cutNow.isSome then (modelWalk acc "" 2 true hz).1 else "-"),
+      w1.1, w1.2, w2.1, w2.2]
     match viol with
     | some v => specViol (v ++ s!" [{backend}]")
     | none =>
       if g != expected then modelDiff ("reads: " ++ expected)
       else ok ("changelog-" ++ backend ++ (if acc.cutNow.isSome then "-horizon" else "")) (acc.oks ≥ 2 && ascL.length ≥ 3)
-  | _ => modelDiff "12 read fields"
+  | _ => modelDiff "17 read fields"
+
+/-- concurrent writers (storew.ConcurrentWrites): every Write applied, the changelog walk by ULID token complete -/
+def concurrentCheck (backend : String) (writers per prefill : Nat) (impl : String) : String :=
+  let n := prefill + writers * per
+  let expected := s!"total={n};paged={n};missing=0;repeated=0;alien=0;order=ok;perwriter=ok;tuples={n};errors=0"
+  let kv := (impl.splitOn ";").filterMap (fun f => match f.splitOn "=" with | [k, v] => some (k, v) | _ => none)
+  let get (k : String) := ((kv.find? (fun p => p.1 == k)).map (·.2)).getD "?"
+  if kv.length != 9 then modelDiff expected
+  else if get "errors" != "0" || get "total" != toString n || get "tuples" != toString n then
+    specViol s!"concurrent Write calls of distinct fresh tuples failed or were lost (errors={get "errors"}, changelog {get "total"} / tuples {get "tuples"} of {n}) [{backend}]"
+  else if get "perwriter" != "ok" then
+    specViol s!"the changelog lists a writer's changes in another order than its (sequential) Write calls [{backend}]"
+  else if get "missing" != "0" || get "repeated" != "0" || get "alien" != "0" || get "order" != "ok" || get "paged" != toString n then
+    specViol s!"after concurrent writes the changelog is not in ULID order: walking it page by page by continuation token lost {get "missing"} and repeated {get "repeated"} of {n} changes [{backend}]"
+  else if impl != expected then modelDiff expected
+  else ok ("concurrent-" ++ backend) true
 
 def runCase (backend : String) (toks : List String) (impl : String) : String :=
   let groups := fields impl
@@ -126,6 +179,10 @@ def runCase (backend : String) (toks : List String) (impl : String) : String :=
 def step (c impl : String) : String :=
   match fields c with
   | "C" :: backend :: toks => runCase backend toks impl
+  | ["W", backend, w, p, pre, _] =>
+    match w.toNat?, p.toNat?, pre.toNat? with
+    | some w, some p, some pre => concurrentCheck backend w p pre impl
+    | _, _, _ => "SKIP unparsable-case"
   | _ => "SKIP unknown-case"
 
 def main : IO Unit := Proto.run step
